@@ -48,6 +48,31 @@ def one(rnd, work, k):
     return rec
 
 
+def two_columns(rnd, work, k):
+    """two cached columns that share an upstream function, asked for together (finding F10 of the pinned tree: each column generates
+    its shard through its own graph, so the shared function runs once per column)"""
+    ids = sorted(rnd.sample(list('abcdef'), rnd.randint(2, 4)))
+    spec = [{'t': 'source', 'ids': ids, 'fields': {'x': 's000'}},
+            {'t': 'transform', 'fields': {'p': ['s001', ['x']], 'q': ['s002', ['x']]}, 'params': {}, 'inherit': True},
+            {'t': 'columns', 'names': ['p', 'q'], 'root': 0, 'shard': rnd.choice([None, 2])}]
+    root = os.path.join(work, f't{k}')
+    rec = {'spec': spec, 'field': ['p', 'q'], 'ids': ids, 'calls': [], 'two_columns': True}
+    layer, _ = P.build(spec, [root])
+    g = layer._compile(('p', 'q'))
+    key = rnd.choice(ids)
+    del sympool.CALLS[:]
+    try:
+        r = {'key': key, 'val': to_json(g(key))}
+    except BaseException as e:  # noqa
+        r = {'key': key, 'exc': exc_name(e)}
+    log = [json.dumps([n, [to_json(x) for x in a], [[kk, to_json(x)] for kk, x in kw]], sort_keys=True) for n, a, kw in sympool.CALLS]
+    r['calls'] = len(log)
+    r['repeated'] = sorted([x, log.count(x)] for x in set(log) if log.count(x) > 1)[:8]
+    rec['calls'].append(r)
+    shutil.rmtree(root, ignore_errors=True)
+    return rec
+
+
 def main():
     ap = argparse.ArgumentParser()
     ap.add_argument('--seed', type=int, default=0)
@@ -57,7 +82,7 @@ def main():
     a = ap.parse_args()
     rnd = random.Random(a.seed * 11 + 1)
     os.makedirs(a.work, exist_ok=True)
-    dump({'cases': [one(rnd, a.work, k) for k in range(a.n)]}, a.out)
+    dump({'cases': [one(rnd, a.work, k) if k % 6 else two_columns(rnd, a.work, k) for k in range(a.n)]}, a.out)
 
 
 if __name__ == '__main__':
